@@ -1242,6 +1242,105 @@ def q_purge_vs_store(o, tier):
             'functions': sorted(short(x) for x in sk.functions_seen)}
 
 
+def q_mirror_reload(o, tier):
+    """C05.M6: the representation invariant assumed by M5 (the in-memory pending / invalid set of a tower has a locator iff the
+    pending_appointments / invalid_appointments table has the row) is (re-)established at start-up: DBM::load_towers fills the
+    `pending_appointments` field of TowerSummary from the table WTClient::add_pending_appointment inserts into, and the
+    `invalid_appointments` field from the table add_invalid_appointment inserts into. Data flow read from the MIR:
+    status constant -> load_appointment_locators(status) -> table name constant; call result -> argument position of
+    TowerSummary::with_appointments -> struct field. Query: exists a field whose reload table differs from its insert table."""
+    funcs, idx, t_mir, err = load_mir('watchtower-plugin', 'lib')
+    if funcs is None:
+        return {'verdict': 'inconclusive', 'reason': 'MIR dump failed'}
+
+    def one(rx):
+        n = [x for x in funcs if re.search(rx, x)]
+        return funcs[n[0]] if len(n) == 1 else None
+    f_lt, f_ll, f_wa = one(r'^dbm::<impl at .*?>::load_towers$'), one(r'^dbm::<impl at .*?>::load_appointment_locators$'), one(r'^<impl at .*?lib\.rs.*?>::with_appointments$')
+    if not (f_lt and f_ll and f_wa):
+        return {'verdict': 'inconclusive', 'reason': 'load_towers / load_appointment_locators / with_appointments not found'}
+    # (1) variant order of AppointmentStatus (source of the current tree)
+    src = open(os.path.join(common.REPO, 'watchtower-plugin', 'src', 'lib.rs')).read()
+    m = re.search(r'pub enum AppointmentStatus\s*\{(.*?)\}', src, re.S)
+    if not m:
+        return {'verdict': 'inconclusive', 'reason': 'enum AppointmentStatus not found'}
+    body = re.sub(r'//[^\n]*', '', m.group(1))
+    variants = [v.strip().split('=')[0].strip() for v in body.split(',') if v.strip() and not v.strip().startswith('#')]
+    variants = [re.sub(r'^#\[.*?\]\s*', '', v, flags=re.S) for v in variants]
+    # (2) status -> table inside load_appointment_locators
+    table_of = {}
+    for b in f_ll.blocks.values():
+        if b.term['kind'] == 'switch' and any(re.match(r'^_\d+ = discriminant\(_3\);$', s_) for s_ in b.stmts):
+            for v, tg in b.term['targets']:
+                if v.isdigit() and int(v) < len(variants):
+                    consts = [re.match(r'^_\d+ = const "(\w+)";$', s_) for s_ in f_ll.blocks[tg].stmts]
+                    consts = [c.group(1) for c in consts if c]
+                    if len(consts) == 1:
+                        table_of[variants[int(v)]] = consts[0]
+    # (3) load_towers: which status feeds which argument of with_appointments
+    call = [b for b in f_lt.blocks.values() if b.term['kind'] == 'call' and re.search(r'TowerSummary::with_appointments$', b.term['callee'])]
+    if len(call) != 1:
+        return {'verdict': 'inconclusive', 'reason': 'call to with_appointments not found in load_towers'}
+    args = [a.strip().split()[-1] for a in call[0].term['args']]
+    status_of_local = {}
+    for b in f_lt.blocks.values():
+        if b.term['kind'] == 'call' and re.search(r'DBM::load_appointment_locators$', b.term['callee']) and b.term['dest']:
+            st_local = b.term['args'][-1].strip().split()[-1]
+            st = None
+            for s_ in b.stmts:
+                mm = re.match(r'^%s = AppointmentStatus::(\w+);$' % re.escape(st_local), s_)
+                if mm:
+                    st = mm.group(1)
+            status_of_local[b.term['dest']] = st
+    # (4) with_appointments: parameter -> field
+    field_of_param = {}
+    alias = {}
+    for b in f_wa.blocks.values():
+        if b.cleanup:
+            continue
+        for s_ in b.stmts:
+            mm = re.match(r'^(_\d+) = (?:move|copy) (_\d+);$', s_)
+            if mm:
+                alias[mm.group(1)] = alias.get(mm.group(2), mm.group(2))
+            mm = re.match(r'^_0 = TowerSummary \{(.*)\};$', s_)
+            if mm:
+                for fld in mm.group(1).split(','):
+                    k, _, v = fld.partition(':')
+                    loc = v.strip().split()[-1]
+                    field_of_param[alias.get(loc, loc)] = k.strip()
+    reload_table = {}
+    for pos, a in enumerate(args):
+        fld = field_of_param.get('_%d' % (pos + 1))
+        if fld in ('pending_appointments', 'invalid_appointments'):
+            reload_table[fld] = table_of.get(status_of_local.get(a))
+    # (5) the table each recorder inserts into (same reading as M5)
+    insert_table = {}
+    for fld, store in (('pending_appointments', 'store_pending_appointment'), ('invalid_appointments', 'store_invalid_appointment')):
+        summ = _store_summary(funcs, store)
+        tabs = sorted({x[0] for _, sok in (summ or []) for x in sok})
+        insert_table[fld] = tabs[0] if len(tabs) == 1 else None
+    if len(reload_table) != 2 or None in reload_table.values() or None in insert_table.values():
+        return {'verdict': 'inconclusive', 'reason': 'data flow not readable: reload=%s insert=%s variants=%s tables=%s' % (reload_table, insert_table, variants, table_of)}
+    names = sorted(set(reload_table.values()) | set(insert_table.values()))
+    text = '(set-logic ALL)\n(declare-const f Int)\n(define-fun reload ((f Int)) Int (ite (= f 0) %d %d))\n(define-fun insert ((f Int)) Int (ite (= f 0) %d %d))\n' % (
+        names.index(reload_table['pending_appointments']), names.index(reload_table['invalid_appointments']),
+        names.index(insert_table['pending_appointments']), names.index(insert_table['invalid_appointments']))
+    text += '(assert (and (>= f 0) (<= f 1) (not (= (reload f) (insert f)))))\n(check-sat)\n(get-value (f))\n'
+    v, out, dt = smt(text)
+    if v == 'inconclusive':
+        return {'verdict': 'inconclusive', 'reason': out[:200]}
+    failed = []
+    if v == 'sat':
+        fi = int(re.search(r'\(f (\d+)\)', out).group(1))
+        fld = ('pending_appointments', 'invalid_appointments')[fi]
+        failed.append({'description': 'after a restart the in-memory set `%s` of a tower is loaded from table %s, but the client records into table %s: the de-duplication of the recorders then skips or repeats database writes (an appointment can end up recorded nowhere)'
+                                      % (fld, reload_table[fld], insert_table[fld]),
+                       'function': 'DBM::load_towers', 'pre_state': {'reload': reload_table, 'insert': insert_table}})
+    return {'verdict': 'fails' if failed else 'holds', 'failed': failed, 'queries': 1, 'solver_s': dt,
+            'witness': {'variants': variants, 'status_to_table': table_of, 'reload': reload_table, 'insert': insert_table},
+            'functions': ['watchtower_plugin::dbm::DBM::load_towers', 'DBM::load_appointment_locators', 'TowerSummary::with_appointments']}
+
+
 def q_retry_data_kept(o, tier):
     """C13.M5: RetryManager::manage_retry, one received message (tower_id, data). Every path from the reception back to the
     next reception either (a) finds the tower abandoned (contains_key false), (b) hands the data to
@@ -1680,6 +1779,7 @@ QUERIES = {
     'purge_race': q_purge_race,
     'retry_data_kept': q_retry_data_kept,
     'purge_vs_store': q_purge_vs_store,
+    'mirror_reload': q_mirror_reload,
 }
 
 
